@@ -881,6 +881,32 @@ func ruleSaveRestore(c *Ctx, rule string) {
 		if len(restored) < 2 {
 			c.Ob(rule, "fast.popDefer", pop, false, "popDefer does not restore at least DeferOfFun and the defer flag: anchor missing")
 		}
+		// every flag pushDefer raises with a constant (SetX(true)) is lowered again by popDefer (SetX(false)): a flag
+		// left set would make the next ordinary call look like the start of a deferred call
+		nflags := 0
+		inspectCalls(push.Body, func(call *ast.CallExpr) {
+			fn := calleeOf(info, call)
+			if fn == nil || !strings.HasPrefix(fn.Name(), "Set") || len(call.Args) != 1 {
+				return
+			}
+			tv, ok := info.Types[call.Args[0]]
+			if !ok || tv.Value == nil || tv.Value.String() != "true" {
+				return
+			}
+			nflags++
+			lowered := false
+			inspectCalls(pop.Body, func(pc *ast.CallExpr) {
+				if pfn := calleeOf(info, pc); pfn == fn && len(pc.Args) == 1 {
+					if ptv, ok := info.Types[pc.Args[0]]; ok && ptv.Value != nil && ptv.Value.String() == "false" {
+						lowered = true
+					}
+				}
+			})
+			c.Ob(rule, "fast.popDefer/lowers:"+strings.TrimPrefix(fn.Name(), "Set"), pop, lowered, "pushDefer raises the flag "+strings.TrimPrefix(fn.Name(), "Set")+" with the constant true: popDefer must lower it with the constant false")
+		})
+		if nflags == 0 {
+			c.Ob(rule, "fast.pushDefer/raises", push, false, "pushDefer raises no flag with a constant: anchor missing")
+		}
 	}
 	// defer restore(run, IsDefer(), run.Interrupt, caller) in reExecWithFlags, before the first write of those
 	fd := c.P.Func("fast.reExecWithFlags")
@@ -1376,5 +1402,158 @@ func ruleOptionRestore(c *Ctx, rule string) {
 	}
 	if n == 0 {
 		c.Ob(rule, "forced-evaluation", nil, false, "no temporary option change around an evaluation found: anchor missing")
+	}
+}
+
+// X7c — an asynchronous signal is consumed before it is acted upon. applyAsyncSignal turns a pending interrupt into
+// a panic; deferred interpreted functions run while that panic unwinds and poll the same field at their entry, so a
+// signal still pending during the unwinding would abort every one of them. Decided: the statement that clears
+// Signals.Async is at the top level of applyAsyncSignal and precedes every panic and every call in it.
+func ruleConsumeBeforeRaise(c *Ctx, rule string) {
+	pk := c.P.Pkg("fast")
+	info := pk.TypesInfo
+	fd := c.P.Func("fast.Run.applyAsyncSignal")
+	if fd == nil || fd.Body == nil {
+		c.Ob(rule, "fast.Run.applyAsyncSignal", nil, false, "anchor function not found")
+		return
+	}
+	var clearPos token.Pos
+	for _, st := range fd.Body.List {
+		as, ok := st.(*ast.AssignStmt)
+		if !ok || len(as.Lhs) != 1 || len(as.Rhs) != 1 {
+			continue
+		}
+		if _, isF := fieldSel(info, as.Lhs[0], "Async"); isF && objQName(usedObj(info, as.Rhs[0])) == "base.SigNone" && clearPos == token.NoPos {
+			clearPos = as.Pos()
+		}
+	}
+	var firstAct token.Pos
+	inspectCalls(fd.Body, func(call *ast.CallExpr) {
+		if firstAct == token.NoPos || call.Pos() < firstAct {
+			firstAct = call.Pos()
+		}
+	})
+	c.Ob(rule, "fast.Run.applyAsyncSignal", fd, clearPos != token.NoPos && (firstAct == token.NoPos || clearPos < firstAct), "Signals.Async is cleared unconditionally before the signal is turned into a panic or a debugger operation")
+}
+
+// X3r — every per-goroutine record is registered where it is created. newEnv4Func finds the record of the running
+// goroutine in IrGlobals.gls; a record that exists but is not registered makes the lookup create a second record
+// for the same goroutine (two frame pools, two signal sets: an interrupt posted on one is never seen by code that
+// polls the other). Decided: each creation of a Run — the composite literal in newTopInterp and every call of
+// Run.new — binds the record to a variable that, later in the same function (or function literal), is stored into
+// the registry: `x.glsStore()`, or `g.gls[k] = x` with k the goid the record was created with.
+func ruleRunRegistered(c *Ctx, rule string) {
+	pk := c.P.Pkg("fast")
+	info := pk.TypesInfo
+	n := 0
+	for _, fd := range c.P.FuncsOf("fast") {
+		if fd.Body == nil || funcKey(pk, fd) == "fast.Run.new" {
+			continue
+		}
+		fkey := funcKey(pk, fd)
+		ast.Inspect(fd.Body, func(nd ast.Node) bool {
+			as, ok := nd.(*ast.AssignStmt)
+			if !ok || len(as.Lhs) != 1 || len(as.Rhs) != 1 || identOf(as.Lhs[0]) == nil {
+				return true
+			}
+			var goidExpr ast.Expr
+			created := false
+			rhs := unparen(as.Rhs[0])
+			if u, ok := rhs.(*ast.UnaryExpr); ok && u.Op == token.AND {
+				if cl, ok := unparen(u.X).(*ast.CompositeLit); ok && isNamedType(typeOrInvalid(info, cl), "fast", "Run") {
+					created = true
+					for _, el := range cl.Elts {
+						if kv, ok := el.(*ast.KeyValueExpr); ok && identOf(kv.Key) != nil && identOf(kv.Key).Name == "goid" {
+							goidExpr = kv.Value
+						}
+					}
+				}
+			}
+			if call, ok := rhs.(*ast.CallExpr); ok && funcFullName(calleeOf(info, call)) == "fast.Run.new" {
+				created = true
+				if len(call.Args) == 1 {
+					goidExpr = call.Args[0]
+				}
+			}
+			if !created {
+				return true
+			}
+			n++
+			o := info.Defs[identOf(as.Lhs[0])]
+			if o == nil {
+				o = info.Uses[identOf(as.Lhs[0])]
+			}
+			registered := false
+			ast.Inspect(fd.Body, func(m ast.Node) bool {
+				switch x := m.(type) {
+				case *ast.CallExpr:
+					if x.Pos() > as.Pos() && funcFullName(calleeOf(info, x)) == "fast.Run.glsStore" {
+						if s, ok := unparen(x.Fun).(*ast.SelectorExpr); ok && usedObj(info, s.X) == o {
+							registered = true
+						}
+					}
+				case *ast.AssignStmt:
+					if x.Pos() > as.Pos() && len(x.Lhs) == 1 && len(x.Rhs) == 1 && usedObj(info, x.Rhs[0]) == o {
+						if ix, ok := unparen(x.Lhs[0]).(*ast.IndexExpr); ok {
+							if _, isG := fieldSel(info, ix.X, "gls"); isG && goidExpr != nil {
+								if usedObj(info, ix.Index) != nil && usedObj(info, ix.Index) == usedObj(info, goidExpr) {
+									registered = true
+								}
+							}
+						}
+					}
+				}
+				return true
+			})
+			c.Ob(rule, fmt.Sprintf("%s/%s", fkey, identOf(as.Lhs[0]).Name), as, registered, "the per-goroutine record created here is stored into the registry under its own goroutine id before the function ends")
+			return true
+		})
+	}
+	if n < 3 {
+		c.Ob(rule, "fast/Run-creation-sites", nil, false, fmt.Sprintf("%d creation sites of Run records found, 3 confirmed by reading (newTopInterp, getRun4Goid, Comp.Go)", n))
+	}
+}
+
+// X3g — the record of a new goroutine is attached to the frame made for it. Comp.Go wraps the call in a fresh frame
+// (newEnv) whose Run field is replaced, inside the goroutine, by the goroutine's own record. The frame that runs
+// the go statement belongs to the parent goroutine and must keep the parent's record. Decided: in Comp.Go every
+// assignment to a Run field of a frame targets the local bound to the result of newEnv in the same statement closure.
+func ruleGoAttachesToOwnFrame(c *Ctx, rule string) {
+	pk := c.P.Pkg("fast")
+	info := pk.TypesInfo
+	fd := c.P.Func("fast.Comp.Go")
+	if fd == nil || fd.Body == nil {
+		c.Ob(rule, "fast.Comp.Go", nil, false, "anchor function not found")
+		return
+	}
+	var fresh types.Object
+	ast.Inspect(fd.Body, func(n ast.Node) bool {
+		if as, ok := n.(*ast.AssignStmt); ok && len(as.Lhs) == 1 && len(as.Rhs) == 1 && identOf(as.Lhs[0]) != nil {
+			if call, ok := unparen(as.Rhs[0]).(*ast.CallExpr); ok {
+				if fn := calleeOf(info, call); fn != nil && (fn.Name() == "newEnv" || fn.Name() == "NewEnv") {
+					fresh = info.Defs[identOf(as.Lhs[0])]
+				}
+			}
+		}
+		return true
+	})
+	n := 0
+	ast.Inspect(fd.Body, func(nd ast.Node) bool {
+		as, ok := nd.(*ast.AssignStmt)
+		if !ok {
+			return true
+		}
+		for _, l := range as.Lhs {
+			x, isRun := fieldSel(info, l, "Run")
+			if !isRun || !isEnvPtr(typeOrInvalid(info, x)) {
+				continue
+			}
+			n++
+			c.Ob(rule, fmt.Sprintf("fast.Comp.Go/Run-write#%d", n), as, fresh != nil && usedObj(info, x) == fresh, "the goroutine's record is attached to the frame created for the goroutine (the result of newEnv), not to the frame of the parent")
+		}
+		return true
+	})
+	if n == 0 {
+		c.Ob(rule, "fast.Comp.Go", fd, false, "no assignment to a frame's Run field in Comp.Go: anchor missing")
 	}
 }
